@@ -149,6 +149,11 @@ TIES = {
     # property C05 itself, about the translated writer and reader coupled as the wire couples them (no model in the statement)
     "c05_source": {"sources": ["pyjelly/serialize/lookup.py", "pyjelly/parse/lookup.py"], "unit": "lookup_enc", "gen": "LookupEncGen", "tie": "C05Source",
                    "needs": ["lookup_enc", "lookup_dec"], "props": ["C05"], "theorems": ["C05_source_mirror_all_histories"]},
+    # clauses of C20 and C13 that live in the Stream classes, directly about the translated source
+    "streams_source": {"sources": ["pyjelly/serialize/streams.py"], "unit": "streams", "gen": "StreamsGen", "tie": "StreamsSource", "needs": [],
+                       "needs_gen": ["lookup_enc", "options", "encode", "flows", "streams"], "props": ["C20", "C13"],
+                       "theorems": ["C20_source_refusal_marks_triple", "C20_source_refusal_marks_quad", "C20_source_refusal_marks_namespace",
+                                    "C20_source_failed_stream_is_closed", "C13_source_header_says_the_options"]},
     # parts of C08 / C13 / C18 stated directly about the translated source
     "source_props": {"sources": ["pyjelly/parse/ioutils.py", "pyjelly/options.py", "pyjelly/serialize/encode.py"], "unit": "hint", "gen": "HintGen",
                      "tie": "SourceProps", "needs": [], "needs_gen": ["hint", "options", "lookup_enc", "encode"], "props": ["C08", "C13", "C18"],
